@@ -67,6 +67,14 @@ func (StdEng) denseRepeat(t, reuse DenseTensor, newShape Shape, axis, size int, 
 	if err != nil {
 		return nil, errors.Wrapf(err, "Repeat reuse is not a *Dense")
 	}
+	// the block copies below walk raw storage with the strides of a contiguous tensor: views and lazily transposed
+	// tensors are repeated by their logical content
+	if v, ok := t.(View); ok && v.IsMaterializable() {
+		if mt, ok := v.Materialize().(DenseTensor); ok {
+			t = mt
+		}
+	}
+
 	var outers int
 	if t.IsScalar() {
 		outers = 1
@@ -75,13 +83,13 @@ func (StdEng) denseRepeat(t, reuse DenseTensor, newShape Shape, axis, size int, 
 	}
 
 	var stride, newStride int
-	if newShape.IsVector() || t.IsVector() {
-		stride = 1 // special case because CalcStrides() will return []int{1} as the strides for a vector
+	if len(newShape) == 1 || axis >= len(t.ostrides()) {
+		stride = 1 // the result is flat (1-d operand, or all axes flattened)
 	} else {
 		stride = t.ostrides()[axis]
 	}
 
-	if newShape.IsVector() {
+	if len(newShape) == 1 || axis >= len(d.ostrides()) {
 		newStride = 1
 	} else {
 		newStride = d.ostrides()[axis]
